@@ -69,7 +69,7 @@ namespace
         case 0:
         {
             sqf::parser::preprocessor::impl_default pp(g_logger);     // fresh macro table per run
-            if (text.find("__COUNTER") != std::string::npos)
+            if (text.find("__") != std::string::npos || text.find('\\') != std::string::npos)
             { // the counter is per-VM state by design: same input means same text in the same state
                 sqf::parser::preprocessor::impl_default reset(g_logger);
                 reset.preprocess(*g_full, "__COUNTER_RESET__", { "/fz/reset.sqf"s, ""s });
